@@ -713,6 +713,13 @@ def run_case(ctx, case):
 
 
 def finish(ctx):
+  if not ctx.quick and ctx.shard == 0:
+    # extra workload: the repository's own test-suite under passive monitors
+    # (invariants at hooks on the real classes; vlib/passive.py)
+    from vlib.passive_run import run_suite
+    if run_suite(ctx, "stream"):
+      ctx.need("passive:stream:take_vs_peek", 500)
+      ctx.need("passive:stream:peek_twice", 500)
   for op in ["take", "peek", "skip", "limit", "append", "map", "filter", "copy",
              "tee", "thub", "next", "for", "hub_iter", "hub_peek", "hub_copy",
              "hub_tee",
